@@ -482,6 +482,11 @@ def hDecide (status : Nat) (cl : List Char) (length : Nat) : HDecision :=
     | none => .reject "badcl"
     | some v => if v ≠ (length : Int) then .reject "mismatch" else .accept false
 
+/-- the reader Hoffman.Get copies from: behind `io.LimitReader(length)` when no Content-Length was
+    given; with a Content-Length (which had to equal `length`) the body as framed by net/http -/
+def hSrc (limited : Bool) (body : Src) (length : Nat) : Src :=
+  if limited then limitSrc body length else body
+
 /-! ## GetRight.Get's copy and the per-file loop of webseedGR -/
 
 /-- what one file request of webseedGR meets -/
